@@ -134,7 +134,9 @@ def encode_addrs(msg: Message, field: str) -> bytes:
         # mailbox and hostname MUST be latin-1 encodable is my understanding
         #
         if "@" in email_address:
-            mailbox, host = email_address.split("@")
+            # (the local part may be a quoted string with a "@" of its own)
+            #
+            mailbox, host = email_address.rsplit("@", 1)
             addr.append(encode_header(mailbox))
             addr.append(encode_header(host))
         else:
@@ -143,6 +145,11 @@ def encode_addrs(msg: Message, field: str) -> bytes:
 
         result.append(b"(" + b" ".join(addr) + b")")
 
+    # A field that is there but holds no address (`Cc:`) is NIL as well: an
+    # address list is never empty.
+    #
+    if not result:
+        return b"NIL"
     return b"(" + b" ".join(result) + b")"
 
 
